@@ -22,7 +22,7 @@ FILESET = "typhon/files/fileset.py"
 TIMEUTILS = "typhon/utils/timeutils.py"
 TREES = "typhon/trees.py"
 EXPECT = {"C01.args": 3, "C01.semiopen": 4, "C01.prune": 9, "C01.anchor": 3, "C01.exclude": 3, "C01.blacklist": 3, "C01.sortkey": 2, "C01.bundle": 3,
-          "C01.trunc": 1, "C01.restable": 2, "C01.len": 3, "C01.pathstate": 1, "C01.reset": 1, "C01.answer": 2, "C01.fill": 1}
+          "C01.trunc": 1, "C01.restable": 2, "C01.len": 3, "C01.pathstate": 1, "C01.reset": 1, "C01.answer": 2, "C01.fill": 1, "C01.trip": 1, "C01.helpers": 2, "C02.table": 19, "C02.doy": 4}
 
 US = {"microseconds": 1, "milliseconds": 1000, "seconds": 10 ** 6, "minutes": 60 * 10 ** 6, "hours": 3600 * 10 ** 6, "days": 86400 * 10 ** 6, "weeks": 7 * 86400 * 10 ** 6}
 
@@ -935,7 +935,10 @@ def run(ctx):
     from .C15 import rule_reset
     for r in (rule_semiopen, rule_prune, rule_exclude, rule_blacklist, rule_sort_bundle, rule_trunc_table, rule_len, rule_pathstate):
         ctx.attempt(r, ctx)
-    from .C02 import fill_evaluated
+    # the time coverage that find() compares comes out of the names: the writer / reader chain of C02 is run here too (shared rules, their own ids)
+    from .C02 import fill_evaluated, trip_evaluated, helpers_evaluated, rule_table, rule_year2, rule_doy_subsec, rule_endfill
+    helpers_evaluated(ctx, "C01.helpers")
+    trip_evaluated(ctx, "C01.trip", (rule_table, (ctx,), ("C02.table",)), (rule_year2, (ctx,), ("C02.year2",)), (rule_doy_subsec, (ctx,), ("C02.doy", "C02.subsec")))
     fill_evaluated(ctx, "C01.fill", (rule_anchor, (ctx, "C01.anchor"), ("C01.anchor",)))
     from ..early import rule_early_table
     rule_early_table(ctx, "C01.answer", [
